@@ -247,6 +247,22 @@ pub struct RunInfo {
 
 /// Finalise a run: print lines, write replays and evidence. Returns the process exit code.
 pub fn finish(mut acc: Acc, info: RunInfo) -> i32 {
+    // a second pass of the thorough tier runs the quick space with harness and interpreter built
+    // under another profile (no debug assertions, no overflow checks): its replay and evidence
+    // files carry the profile's tag
+    let tag = std::env::var("MC_PROFILE_TAG").ok().filter(|t| !t.is_empty());
+    let tagged = |stem: &str| match &tag {
+        Some(t) => format!("{}.{}", stem, t),
+        None => stem.to_string(),
+    };
+    if let Ok(note) = std::env::var("MC_EXTRA_NOTE") {
+        if !note.is_empty() {
+            acc.notes.push(note);
+        }
+    }
+    if let Some(t) = &tag {
+        acc.notes.push(format!("build profile of this pass: {} (debug assertions and overflow checks off)", t));
+    }
     let known = load_known();
     let mut out_known = vec![];
     // entries whose defect model fired but which are not listed as open -> violations
@@ -272,17 +288,17 @@ pub fn finish(mut acc: Acc, info: RunInfo) -> i32 {
     if let Ok(rd) = std::fs::read_dir(format!("{}/replays", VERIF)) {
         for e in rd.flatten() {
             let n = e.file_name().to_string_lossy().to_string();
-            if n.starts_with(&format!("{}-", info.id)) {
+            if n.starts_with(&format!("{}-", tagged(&info.id))) {
                 let _ = std::fs::remove_file(e.path());
             }
         }
     }
     let mut viol_json = vec![];
     for (i, v) in acc.violations.iter().take(10).enumerate() {
-        let path = format!("{}/replays/{}-{}.json", VERIF, info.id, i);
+        let path = format!("{}/replays/{}-{}.json", VERIF, tagged(&info.id), i);
         let j = json!({
             "property": info.id, "case": v.case, "expected": v.expected, "observed": v.observed,
-            "index": v.idx, "payload": v.payload,
+            "index": v.idx, "payload": v.payload, "profile": tag.clone().unwrap_or_default(),
         });
         let _ = std::fs::write(&path, serde_json::to_string_pretty(&j).unwrap());
         println!("VIOLATION property={} replay={}", info.id, path);
@@ -355,12 +371,13 @@ pub fn finish(mut acc: Acc, info: RunInfo) -> i32 {
         "wall_s": info.wall_s,
         "violations": acc.n_violations,
     });
-    let path = format!("{}/evidence/{}.json", VERIF, info.id);
+    let path = format!("{}/evidence/{}.json", VERIF, tagged(&info.id));
     std::fs::write(&path, serde_json::to_string_pretty(&ev).unwrap()).expect("write evidence");
     println!(
-        "{} {}: evaluations={} states={} transitions={} distinct={} violations={} known-finding-cases={} wall={:.1}s",
+        "{} {}{}: evaluations={} states={} transitions={} distinct={} violations={} known-finding-cases={} wall={:.1}s",
         info.id,
         info.tier,
+        tag.as_ref().map(|t| format!(" [{} profile]", t)).unwrap_or_default(),
         acc.evals,
         states,
         transitions,
